@@ -215,6 +215,21 @@ func (w *world) apply(r *rep.Report, o op) {
 			_, errs["GetParents"] = loc.GetParents(ctx)
 			errs["Clear"] = loc.Clear(ctx)
 			_, errs["RunJavascript"] = loc.RunJavascript(ctx, "1+1", nil, nil, nil)
+			// events that carry their own rule, or name a rule, fire nothing either
+			for name, ev := range map[string]core.Map{
+				"ProcessEvent(evaluate!)": {"evaluate!": map[string]interface{}{"when": map[string]interface{}{"pattern": map[string]interface{}{"e": "?any"}}, "action": map[string]interface{}{"code": "'embedded ran'"}}, "e": "x"},
+				"ProcessEvent(trigger!)":  {"trigger!": "r1", "e": "r1"},
+			} {
+				fr, cond := loc.ProcessEvent(drv.Ctx(), ev)
+				if fr != nil && len(fr.Values) > 0 {
+					r.Violate("", name+": a rule fired in a disabled location", wit())
+				}
+				if cond != nil {
+					errs[name] = fmt.Errorf("%s", cond.Msg)
+				} else {
+					errs[name] = nil
+				}
+			}
 			for name, err := range errs {
 				r.Count("disabled_location_ops_checked", 1)
 				if err == nil || !strings.Contains(err.Error(), disabledMsg) {
